@@ -49,13 +49,8 @@ def _const(ctx, R, path):
     return c["value"]
 
 
-def run(ctx):
-    F = ctx.facts
-    ctx.extra["explanation"] = (
-        "C18: the 256+128+128+64+32 table entries of the Base16/32hex/64 alphabets are read from the "
-        "compiler's constant evaluator and checked exhaustively for inverse/RFC 4648 agreement; sibling "
-        "decoders must reference the same table. State machines/padding are not decided."
-    )
+def rule_tab(ctx, F):
+    """the alphabets: compiler-evaluated tables against RFC 4648, encode and decode tables mutual inverses"""
     R = "C18.tab"
     ctx.floor(R, 9)
     # ---- base64
@@ -101,6 +96,16 @@ def run(ctx):
         bad = [i for i, e in enumerate(enc) if "".join(chr(x) for x in e) != "%02X" % i]
         ctx.ob(R, "utils::base16::ENCODE_ALPHABET", "entry i == two upper-case hex digits of i (256 entries)",
                not bad and len(enc) == 256, "base16 table wrong at octets %s" % bad[:8])
+
+
+def run(ctx):
+    F = ctx.facts
+    ctx.extra["explanation"] = (
+        "C18: the 256+128+128+64+32 table entries of the Base16/32hex/64 alphabets are read from the "
+        "compiler's constant evaluator and checked exhaustively for inverse/RFC 4648 agreement; sibling "
+        "decoders must reference the same table. State machines/padding are not decided."
+    )
+    rule_tab(ctx, F)
 
     # ---- siblings
     R = "C18.sib"
